@@ -90,6 +90,7 @@ def cases(tier, seed=0):
   cs += _ea.cutoff_arg_cases('setfl', tier)
   cs += _ea.long_label_cases('setfl', tier)
   cs += _ea.pair_iterable_cases('setfl', tier)
+  cs += _ea.late_onset_cases('setfl', tier)
   return cs
 
 
